@@ -89,9 +89,10 @@ func (f *c34Facts) hooks() *tracing.Hooks {
 	}
 }
 
-// c34KnownDBErr is the class label of the known finding "missing node, different
-// roots, no error" (see notes/C34.md); the gate is inert unless the driver lists it.
-const c34KnownDBErr = "missing-node-different-root-no-error"
+// Class label of the FIXED finding "missing node or code, different roots, no error"
+// (repo commit 5ce10c7297, see notes/C34.md): nothing is gated on it; the reversed
+// commit serves as a mutation probe.
+//   missing-node-different-root-no-error
 
 // c34KnownHeader: "missing ancestor header, BLOCKHASH silently zero, different roots,
 // no error" (see notes/C34.md).
@@ -280,19 +281,15 @@ func TestVerifC34Stateless(t *testing.T) {
 			case sr == last.Root() && rr == last.ReceiptHash():
 				needless++
 				c.Class("removal:" + rm.kind + "/not-needed")
-			case rm.kind == "header" && vs.Known("TestVerifC34Stateless", c34KnownHeader):
-				// Known finding (only when listed): BLOCKHASH of an ancestor whose header is
-				// missing from the witness silently yields the zero hash.
+			case rm.kind == "header" && rm.idx > 0 && sr == last.Root() && rr != last.ReceiptHash() &&
+				vs.Known("TestVerifC34Stateless", c34KnownHeader):
+				// Known finding (gate active only while known_findings.json lists it): BLOCKHASH
+				// of an ancestor whose header is missing from the witness silently yields the
+				// zero hash. Narrow on purpose: a non-parent ancestor header removed, true
+				// state root, different receipt root, nil error. Anything else stays a violation.
 				st.Excluded()
 				required++
-				c.Class("removal:header/KNOWN-different-roots-no-error")
-			case rm.kind != "header" && vs.Known("TestVerifC34Stateless", c34KnownDBErr):
-				// Known finding (only when listed in known_findings.json): ExecuteStateless
-				// ignores the StateDB's memoised database error, so a missing trie node or
-				// code blob yields different roots without an error.
-				st.Excluded()
-				required++
-				c.Class("removal:" + rm.kind + "/KNOWN-different-roots-no-error")
+				c.Class("removal:header/KNOWN-different-receipt-root-no-error")
 			default:
 				rt.Fatalf("C34 violated: after removing %s stateless execution returned no error but state root %x receipt root %x (true: %x / %x)\n%s",
 					what, sr, rr, last.Root(), last.ReceiptHash(), describe())
